@@ -500,9 +500,9 @@ def run(tier):
     # before the next call, plus fixed long histories in pristine processes
     ddepth = 2 if quick else 3
     d = hist.explore(DREF, ddepth, base[DREF], plen=1 if quick else 2)
-    R.fail_many(d["fails"])
     lf, lap = hist.long_histories(DREF, base[DREF], long_rotations(NP, 2))
     R.fail_many(lf)
+    R.fail_many(d["fails"])
     states |= {"P" + s for s in d["states"]}
     transitions += d["applied"] + 2 * lap
     traces += d["histories"] + 2 * len(long_rotations(NP, 2))
@@ -560,10 +560,13 @@ def run(tier):
     fresh_hist = 0
     for rp in (0, 1):
         g = hist.explore(FREF[rp], gdepth, base[FREF[rp]], plen=2)
-        R.fail_many(g["fails"])
         rots = long_rotations(nf, 6) + long_rotations(nf, 3)
         lf, lap = hist.long_histories(FREF[rp], base[FREF[rp]], rots)
+        # the long histories ran in pristine processes: their cases replay
+        # exactly, so they are recorded first (first case per signature is kept)
         R.fail_many(lf)
+        R.fail_many(g["fails"])
+        R.add("generator_long_history_failures", len(lf))
         fresh_hist += g["histories"] + 2 * len(rots)
         transitions += g["applied"] + 2 * lap
         traces += g["histories"] + 2 * len(rots)
